@@ -41,9 +41,9 @@ def ld_tolerance(s, cfg, D):
     if s.kind == "umnn":
         # declared approximation: the map is an nb_steps-point Clenshaw-Curtis quadrature of the integrand over [0, x]
         # while the returned log-det is the integrand itself; the gap grows with |x| (alphabet reaches |x| = 6)
-        t += 1e-1 if cfg.get("integrand") == "relu" else 1e-3
+        t += 2e-1 if cfg.get("integrand") == "relu" else 5e-2
         if cfg.get("nb_steps", 60) < 60:
-            t += 2e-1 if cfg.get("integrand") == "relu" else 1e-2
+            t += 2e-1 if cfg.get("integrand") == "relu" else 5e-2
     return t
 
 
